@@ -7,6 +7,19 @@ static int n_push, n_pop, cap_log;
 static long quota, total_target;
 static _Atomic long popped_total, pushers_done;
 static int cur_round;
+static _Atomic int ring_abort;  // set when a thread saw an absurd streak of failures: stop the round, judge what was recorded
+#define STUCK_STREAK 30000000L
+static _Atomic long ring_successes;  // any thread, any operation
+// a failure only counts towards the streak while nobody at all succeeds
+static inline int stuck_tick(long* streak, long* seen) {
+  const long g = atomic_load_explicit(&ring_successes, memory_order_relaxed);
+  if (g != *seen) {
+    *seen = g;
+    *streak = 0;
+    return 0;
+  }
+  return ++*streak > STUCK_STREAK;
+}
 static vp_counter_t *c_push, *c_pushfail, *c_pop, *c_popfail, *c_rounds, *c_laps;
 
 static void round_fn(ds_worker_t* w) {
@@ -15,13 +28,24 @@ static void round_fn(ds_worker_t* w) {
   if (w->id < n_push) {
     uint64_t seq = 0;
     const int blocking = (vp_rand(&w->rng) & 7) == 0;
-    while ((long)seq < quota) {
+    long streak = 0, seen = 0;
+    while ((long)seq < quota && !atomic_load(&ring_abort)) {
       const uint64_t val = ((uint64_t)(w->id + 1) << 40) | (seq + 1);
       vp_op_t* o = vp_log_begin(&w->log, w->id, VP_OP_PUSH, val);
       int ok = 1;
-      if (blocking) lockfree_ring_buffer_push(rb, (void*)(uintptr_t)val);
-      else ok = lockfree_ring_buffer_trypush(rb, (void*)(uintptr_t)val);
+      if (blocking) {
+        // same loop as lockfree_ring_buffer_push(), but able to give up when the structure is wedged
+        while (!(ok = lockfree_ring_buffer_trypush(rb, (void*)(uintptr_t)val))) {
+          if (rb->high - rb->low >= rb->size) cpu_relax();
+          if (stuck_tick(&streak, &seen) || atomic_load(&ring_abort)) break;
+        }
+      } else {
+        ok = lockfree_ring_buffer_trypush(rb, (void*)(uintptr_t)val);
+      }
+      if (!ok && (streak > STUCK_STREAK || stuck_tick(&streak, &seen))) atomic_store(&ring_abort, 1);
       if (ok) {
+        streak = 0;
+        atomic_fetch_add_explicit(&ring_successes, 1, memory_order_relaxed);
         vp_log_end(o, VP_RES_OK, val);
         ++seq;
         cf = 0;
@@ -40,12 +64,13 @@ static void round_fn(ds_worker_t* w) {
     atomic_fetch_add(&pushers_done, 1);
   } else {
     long idle = 0;
-    while (atomic_load(&popped_total) < total_target) {
+    while (atomic_load(&popped_total) < total_target && !atomic_load(&ring_abort)) {
       vp_op_t* o = vp_log_begin(&w->log, w->id, VP_OP_POP, 0);
       void* v = lockfree_ring_buffer_trypop(rb);
       if (v) {
         vp_log_end(o, VP_RES_OK, (uint64_t)(uintptr_t)v);
         atomic_fetch_add(&popped_total, 1);
+        atomic_fetch_add_explicit(&ring_successes, 1, memory_order_relaxed);
         vp_add(c_pop, 1);
         cf = 0;
         idle = 0;
@@ -110,6 +135,7 @@ void ds_sub_ring(void) {
     total_target = quota * n_push;
     atomic_store(&popped_total, 0);
     atomic_store(&pushers_done, 0);
+    atomic_store(&ring_abort, 0);
     rb = lockfree_ring_buffer_create((uint32_t)cap_log);
     int i;
     for (i = 0; i < n_push + n_pop; ++i) vp_log_reset(&ds_w[i].log);
@@ -130,7 +156,7 @@ void ds_sub_ring(void) {
     snprintf(ctx, sizeof(ctx), "round %d (capacity %d, %d pushers, %d poppers)", cur_round, 1 << cap_log, n_push, n_pop);
     vp_val_t* vals;
     size_t nv = vp_vals_build(&h, &vals, &rep, ctx);
-    vp_check_no_loss(vals, nv, &rep, ctx);
+    vp_check_no_loss(vals, nv, &rep, ctx);  // (the drain above still applies to whatever was pushed)
     vp_check_fifo(vals, nv, &rep, ctx, 1);
     vp_check_capacity(&h, 1L << cap_log, &rep, ctx);
     vp_check_isolated_fail(&h, 1L << cap_log, &rep, ctx);
@@ -139,6 +165,11 @@ void ds_sub_ring(void) {
     vp_add(c_laps, total_target >> cap_log);
     lockfree_ring_buffer_destroy(rb);
     vp_add(c_rounds, 1);
+    if (atomic_load(&ring_abort)) {
+      vp_count("rounds_aborted_no_progress", 1);
+      vp_note("ring round %d aborted: a thread failed %ld consecutive times", cur_round, STUCK_STREAK);
+      break;
+    }
     if (vp_violation_count()) break;
   }
 }
